@@ -56,7 +56,8 @@ class _PairCase(TypeCase):
             c = test.comparators[0]
             neg = isinstance(test.ops[0], ast.NotIn)
             if isinstance(c, ast.Name) and c.id == self.types_param:
-                return not neg                      # the kind is among the requested kinds
+                req = getattr(self, "requested", True)
+                return req != neg                   # the case says whether the kind is among the requested kinds
             if _base_name(c) == self.opens:
                 opened = st.vals.get("$open", frozenset([self.is_open]))
                 if len(opened) != 1:
@@ -193,6 +194,20 @@ def check_pairings(ctx: Ctx, rule: str = "PAIR") -> int:
                   construct=f"pairing table: {what} is not handled as required ({', '.join(sorted(bad))})" if bad else "ok",
                   message="; ".join(f"{words[k]}: [min,max]={g}, required {w}" for k, (g, w) in bad.items())
                           + " -- notes are read everywhere as [note_on, note_off] lists built here", file=fi.file, node=loop)
+    # a message whose kind was not requested leaves no trace: not even an (empty) channel entry -- the order of the returned
+    # dictionary decides ties between channels in the interleaving, so it may depend on requested kinds only
+    for T in ("NOTE_ON", "TIME_SIGNATURE"):
+        tc = _PairCase(p, fi, {m}, T, pairs=pairs, opens=opens, flag=flag, types_param=types_param, is_open=False, impute=True)
+        tc.requested = False
+        exits = tc.run_body(loop.body)
+        touched = events_matching(exits, lambda e: (e[0] == "call" and e[1].split(".")[0].split("[")[0] in (pairs, opens))
+                                  or e[0] in ("newpair", "newpair-other", "close", "pop", "openstore")
+                                  or (e[0] == "substore" and e[1].split("[")[0] in (pairs, opens)), kinds=("end", "continue")) or (0, 0)
+        n += 1
+        ctx.check(touched == (0, 0), rule, f"{FN}: a {T} that was not requested touches neither table {touched}", function=FN,
+                  construct="a message of a kind that was not requested changes the pairing tables",
+                  message=f"table operations [min,max]={touched}: an ignored kind (equals with an ignore flag) would still create channel entries and "
+                          f"thereby decide the channel order of the result", file=fi.file, node=loop)
     # defaults: imputation on, and a missing kind list replaced by the two note kinds, before the pass
     defaults = dict(zip(params[len(params) - len(fn.args.defaults):], fn.args.defaults))
     if flag is not None:
